@@ -31,7 +31,7 @@ package server
 //@     | ==> ret1 == nil && ret0 == namespaceManager.prefixToExpansionMapping[curie[:indexOf(curie, ":")]] + curie[indexOf(curie, ":")+1:]
 //@   ensures [unknown-prefix-is-error] !(indexOf(curie, ":") >= 0 && has(namespaceManager.prefixToExpansionMapping, curie[:indexOf(curie, ":")])) ==> ret1 != nil
 //@   ensures [lock-released] $held == old($held)
-//@   modifies $held
+//@   modifies $held, $acq
 //@   safe slice
 
 //@ unit (*NamespaceManager).GetPrefixMappingForExpansion
@@ -40,7 +40,7 @@ package server
 //@   requires namespaceManager != nil && !has($held, addrOf(namespaceManager.lock))
 //@   ensures [lookup] has(namespaceManager.expansionToPrefixMapping, uriExpansion) ==> ret1 == nil && ret0 == namespaceManager.expansionToPrefixMapping[uriExpansion]
 //@   ensures [lock-released] $held == old($held)
-//@   modifies $held
+//@   modifies $held, $acq
 
 //@ unit (*NamespaceManager).GetPrefixToExpansionMap
 //@   prop C13
@@ -50,7 +50,7 @@ package server
 //@   ensures [snapshot-copy] result != namespaceManager.prefixToExpansionMapping
 //@   ensures [snapshot-complete] forall p string :: has(namespaceManager.prefixToExpansionMapping, p) ==> has(result, p) && result[p] == namespaceManager.prefixToExpansionMapping[p]
 //@   ensures [snapshot-exact] forall p string :: has(result, p) ==> has(namespaceManager.prefixToExpansionMapping, p)
-//@   modifies $held, MapDom.string.string, MapVal.string.string, MapLen.string.string
+//@   modifies $held, $acq, MapDom.string.string, MapVal.string.string, MapLen.string.string
 //@   loop 1
 //@     invariant result != 0 && result != namespaceManager.prefixToExpansionMapping
 //@     invariant forall p string :: visited(p) ==> has(result, p) && result[p] == namespaceManager.prefixToExpansionMapping[p]
@@ -93,7 +93,7 @@ package server
 //@     assert [dense-after-insert] forall i int :: 0 <= i && i < len(namespaceManager.prefixToExpansionMapping) ==> has(namespaceManager.prefixToExpansionMapping, "ns" + itoa(i))
 //@   at call Itoa#1
 //@     assert [fresh-prefix] !has(namespaceManager.prefixToExpansionMapping, "ns" + itoa(len(namespaceManager.prefixToExpansionMapping)))
-//@   modifies $held, $persisted, MapDom.string.string, MapVal.string.string, MapLen.string.string, F.server.NamespacesState.*
+//@   modifies $held, $acq, $persisted, MapDom.string.string, MapVal.string.string, MapLen.string.string, F.server.NamespacesState.*
 
 // compacting a URI and expanding the CURIE again gives the URI back: the result satisfies ExpandCurie's success condition with value val
 //@ unit (*Store).GetNamespacedIdentifierFromURI
@@ -160,7 +160,7 @@ package server
 // C15: the stream parser never panics on a wrongly typed token and never hands out an entity from a failed parse
 
 //@ assumed (*Store).GetNamespacedIdentifier
-//@   modifies $held, $persisted, $storeAttempted, map[string]string
+//@   modifies $held, $acq, $persisted, $storeAttempted, map[string]string
 //@ unit (*EntityStreamParser).parseProperties
 //@   prop C15
 //@   requires [parser] esp != nil
@@ -169,7 +169,7 @@ package server
 //@   requires [mappings] esp.localPropertyMappings != nil
 //@   ensures [no-props-on-error] ret1 != nil ==> ret0 == nil
 //@   ensures [props-on-success] ret1 == nil ==> ret0 != nil
-//@   modifies $held, $persisted, $storeAttempted, map[string]string, map[string]interface{}, Entity.*, []interface{}
+//@   modifies $held, $acq, $persisted, $storeAttempted, map[string]string, map[string]interface{}, Entity.*, []interface{}
 //@   safe typeassert nilmap
 
 //@ unit (*EntityStreamParser).parseReferences
@@ -180,7 +180,7 @@ package server
 //@   requires [mappings] esp.localPropertyMappings != nil
 //@   ensures [no-refs-on-error] ret1 != nil ==> ret0 == nil
 //@   ensures [refs-on-success] ret1 == nil ==> ret0 != nil
-//@   modifies $held, $persisted, $storeAttempted, map[string]string, map[string]interface{}, []interface{}, []string
+//@   modifies $held, $acq, $persisted, $storeAttempted, map[string]string, map[string]interface{}, []interface{}, []string
 //@   safe typeassert nilmap
 
 //@ unit (*EntityStreamParser).parseValue
@@ -189,7 +189,7 @@ package server
 //@   requires [decoder] decoder != nil
 //@   requires [store] esp.store != nil
 //@   requires [mappings] esp.localPropertyMappings != nil
-//@   modifies $held, $persisted, $storeAttempted, map[string]string, map[string]interface{}, Entity.*, []interface{}
+//@   modifies $held, $acq, $persisted, $storeAttempted, map[string]string, map[string]interface{}, Entity.*, []interface{}
 //@   safe typeassert nilmap
 
 //@ unit (*EntityStreamParser).parseArray
@@ -198,7 +198,7 @@ package server
 //@   requires [decoder] decoder != nil
 //@   requires [store] esp.store != nil
 //@   requires [mappings] esp.localPropertyMappings != nil
-//@   modifies $held, $persisted, $storeAttempted, map[string]string, map[string]interface{}, Entity.*, []interface{}
+//@   modifies $held, $acq, $persisted, $storeAttempted, map[string]string, map[string]interface{}, Entity.*, []interface{}
 //@   safe typeassert nilmap
 
 //@ unit (*EntityStreamParser).parseRefValue
@@ -206,7 +206,7 @@ package server
 //@   requires [parser] esp != nil
 //@   requires [decoder] decoder != nil
 //@   requires [store] esp.store != nil
-//@   modifies $held, $persisted, $storeAttempted, map[string]string, []string, []interface{}
+//@   modifies $held, $acq, $persisted, $storeAttempted, map[string]string, []string, []interface{}
 //@   safe typeassert nilmap
 
 //@ unit (*EntityStreamParser).parseRefArray
@@ -214,7 +214,7 @@ package server
 //@   requires [parser] esp != nil
 //@   requires [decoder] decoder != nil
 //@   requires [store] esp.store != nil
-//@   modifies $held, $persisted, $storeAttempted, map[string]string, []string, []interface{}
+//@   modifies $held, $acq, $persisted, $storeAttempted, map[string]string, []string, []interface{}
 //@   safe typeassert nilmap
 
 //@ unit (*EntityStreamParser).parseEntity
@@ -225,7 +225,7 @@ package server
 //@   requires [mappings] esp.localPropertyMappings != nil
 //@   ensures [no-entity-on-error] ret1 != nil ==> ret0 == nil
 //@   ensures [entity-on-success] ret1 == nil ==> ret0 != nil
-//@   modifies $held, $persisted, $storeAttempted, map[string]string, map[string]interface{}, Entity.*, []interface{}
+//@   modifies $held, $acq, $persisted, $storeAttempted, map[string]string, map[string]interface{}, Entity.*, []interface{}
 //@   safe typeassert nilmap
 
 //@ unit (*EntityStreamParser).readContextNamespaces
@@ -363,7 +363,7 @@ package server
 // readers and the garbage collector decode, is stamped with the transaction time and goes through the caller's txn.
 
 //@ assumed (*Store).assertIDForURI
-//@   modifies $held, map[string]uint64
+//@   modifies $held, $acq, map[string]uint64
 //@   ensures ret2 == nil ==> ret0 >= 0
 
 //@ unit (*Dataset).StoreEntitiesWithTransaction
@@ -442,7 +442,7 @@ package server
 // them, the call is acknowledged only after the data transaction committed, the counter is updated after the commit
 
 //@ assumed (*Store).commitIDTxn
-//@   modifies $held
+//@   modifies $held, $acq
 //@   ensures $held == old($held)
 //@ assumed (*badger.Txn).Commit
 //@   pure
